@@ -93,15 +93,15 @@ func ruleG1(c *Ctx, id string) {
 	mkroot := c.fn(id, "inode.MkRootInode")
 	if root != nil && mkroot != nil && V.InitInode != nil {
 		var consts []int64
-		for _, b := range root.Blocks {
-			for _, in := range b.Instrs {
-				if cal := staticCallee(in); cal != nil && cal.Name() == "PutInt" {
-					if k, ok := constInt(stripConv(argN(in, 0))); ok {
-						consts = append(consts, k)
-					} else {
-						consts = append(consts, -1)
-					}
-				}
+		rops, _, _ := codecOps(root)
+		for _, o := range rops {
+			if o.Kind != "Int" || !o.Put {
+				continue
+			}
+			if k, ok := constInt(stripConv(o.Src)); ok {
+				consts = append(consts, k)
+			} else {
+				consts = append(consts, -1)
 			}
 		}
 		inc := genIncrement(c, V.InitInode)
@@ -288,7 +288,7 @@ func ruleG3(c *Ctx, id string) {
 			}
 		}
 		R.Check(okSrc && okIno, id, "fstxn.GetInodeFh|inode of the handle's number", P.Pos(r.Pos()), "the inode returned is GetInodeInum(MakeFh(handle).Ino)", "value identity", "returned inode is not the one named by the handle")
-		g := guardedBy(f, r.Block(), func(cd Cond) (bool, bool) {
+		genMatch := func(cd Cond) (bool, bool) {
 			if cd.Op != token.EQL && cd.Op != token.NEQ {
 				return false, false
 			}
@@ -306,7 +306,9 @@ func ruleG3(c *Ctx, id string) {
 				return false, false
 			}
 			return true, cd.Op == token.EQL
-		})
+		}
+		// every path to this return compared the generations (equal edge) or carries a nil inode
+		g := everyPathTakes(f, r.Block(), condEdge(f, genMatch), cmpZeroEdge(f, fwdClosure([]ssa.Value{res}, false)))
 		R.Check(g, id, "fstxn.GetInodeFh|generation compared", P.Pos(r.Pos()), "a non-nil return is dominated by ip.Gen == handle.Gen", "guard dominates the return", "an inode is returned without comparing generations: stale handles are accepted after the number is reused")
 	}
 	// every path that returns nil after the acquisition releases the lock
@@ -344,7 +346,7 @@ func ruleG3(c *Ctx, id string) {
 	R.Analysed[FuncName(g)] = true
 	for _, r := range nonConstReturns(g, 0) {
 		res := r.Results[0]
-		ok := guardedBy(g, r.Block(), func(cd Cond) (bool, bool) {
+		kindMatch := func(cd Cond) (bool, bool) {
 			n, fl, base, _ := loadedField(cd.X)
 			k, isk := constInt(cd.Y)
 			if n == V.Inode && fl == "Kind" && base == stripConv(res) && isk && k == 0 {
@@ -356,7 +358,8 @@ func ruleG3(c *Ctx, id string) {
 				}
 			}
 			return false, false
-		})
+		}
+		ok := everyPathTakes(g, r.Block(), condEdge(g, kindMatch), cmpZeroEdge(g, fwdClosure([]ssa.Value{res}, false)))
 		R.Check(ok, id, "fstxn.GetInodeInum|free inodes are not returned", P.Pos(r.Pos()), "a non-nil return is dominated by Kind != NF3FREE", "guard dominates the return", "a freed inode can be returned to a handler: removed objects stay reachable through old handles")
 	}
 }
